@@ -186,6 +186,10 @@ def defect(e):
 
 
 def run(ctx):
+    # which alphabet a sequence has is decided by value (an unpickled / deep-copied sequence carries its own copy of the alphabet):
+    # slicing, feature indexing and reverse_complement clone through NucleotideSequence.__copy_create__
+    from ..lints import alphabets_compared_by_value
+    alphabets_compared_by_value(ctx, "sequence/seqtypes.py", "R3.alphabet-compared-by-value", 1)
     from .C03 import sequence_add_rule
     sequence_add_rule(ctx, "R1")
     # reverse-strand parts of a feature are read and written through complement(): the table behind it (seqtypes.py)
